@@ -6,10 +6,10 @@ CONSTANTS
   Pos = {p0, p1, p2, p3, p4}
   NumTokens = 2
   HbTimeout = 2
-  MaxClock = 4
-  Cfg0 <- Cfg0C08a
+  MaxClock = 3
+  Cfg0 <- Cfg0C08r
   Cfgs <- AllCfgs
-  Bud0 <- BudC08a
+  Bud0 <- BudC08r
   OwnEntryCheck = TRUE
 INVARIANTS TypeOK HeartbeatFresh
 PROPERTIES OwnEntryOnly StateEdges RefusedUntouched HeartbeatMonotone RegisteredOnce ActivationTokens ReadyImpliesActive KeepsIdentity ReRegistersFresh
